@@ -2,6 +2,7 @@ package sim
 
 import (
 	"bytes"
+	"encoding/base64"
 	"encoding/json"
 	"fmt"
 	"sort"
@@ -165,6 +166,19 @@ func (v Val) Go() interface{} {
 	case "nilptr":
 		var p *int
 		return p
+	case "nilmap":
+		var m map[string]interface{}
+		return m
+	case "bytes":
+		return []byte(v.S)
+	case "f64array":
+		var a [2]float64
+		for i := 0; i < 2 && i < len(v.L); i++ {
+			a[i] = v.L[i].F
+		}
+		return a
+	case "bytearray":
+		return [3]byte{byte(v.U), byte(v.U >> 8), byte(v.U >> 16)}
 	}
 	panic("sim.Val: unknown tag " + v.T)
 }
@@ -240,6 +254,9 @@ func toJSON(x interface{}) interface{} {
 	case *uint64:
 		return float64(*t)
 	case map[string]interface{}:
+		if t == nil {
+			return nil // encoding/json: a nil map is null
+		}
 		m := make(map[string]interface{}, len(t))
 		for k, e := range t {
 			m[k] = toJSON(e)
@@ -254,6 +271,12 @@ func toJSON(x interface{}) interface{} {
 			l = append(l, toJSON(e))
 		}
 		return l
+	case []byte:
+		return base64.StdEncoding.EncodeToString(t) // encoding/json: a byte slice is a base64 string
+	case [2]float64:
+		return []interface{}{t[0], t[1]}
+	case [3]byte:
+		return []interface{}{float64(t[0]), float64(t[1]), float64(t[2])} // an array (not a slice) of bytes is an array of numbers
 	case []string:
 		l := make([]interface{}, 0, len(t))
 		for _, e := range t {
@@ -283,10 +306,20 @@ func toJSON(x interface{}) interface{} {
 // IsNil tells whether the API would see a nil interface value.
 func (v Val) IsNil() bool { return v.T == "nil" }
 
+// IsNullLike tells whether the value has no JSON form other than null: nil, a nil pointer, a nil
+// slice or a nil map.
+func (v Val) IsNullLike() bool {
+	switch v.T {
+	case "nil", "nilptr", "nilslice", "nilmap":
+		return true
+	}
+	return false
+}
+
 // IsContainer tells whether the value becomes a JSON object or array.
 func (v Val) IsContainer() bool {
 	switch v.T {
-	case "map", "slice", "nilslice", "strslice", "mapint", "tagged", "*tagged", "plain":
+	case "map", "slice", "nilslice", "strslice", "mapint", "tagged", "*tagged", "plain", "f64array", "bytearray":
 		return true
 	}
 	return false
